@@ -13,6 +13,9 @@ CHECKS = {
  "C03": ("model_checking", "bounded-exhaustive enumeration of query shapes x graph contents against a nested-loop reference evaluator",
          "All one-clause shapes (3 subjects x 10 predicate terms x 8 object terms, every sharing pattern of binding names, every single extraction modifier, 6 global time bounds; pairs of modifiers in thorough) x every subset of <= 3 triples (thorough: all 256 subsets) of an 8-triple universe, one and two FROM graphs (disjoint and overlapping); all two-clause shapes (146k) x 10 designed graphs. Row multisets compared with bqlm.Solve (one row per distinct assignment).",
          "Reference evaluator bqlm (600 lines, own reading of docs/bql.md and of the property); anchors in UTC; <= 2 clauses; multiplicities open only for overlapping graphs.", "3/C03"),
+ "C04": ("model_checking", "explicit-state BFS over statement sequences against the StoreModel (reified blank-node groups up to renaming); every (state, statement, bulkSize) replayed on a fresh store through parse -> plan -> execute",
+         "26 statements (CREATE / DROP single, multiple, existing, missing; INSERT / DELETE of 1-3 triples into 1-2 graphs incl. duplicates; CONSTRUCT / DECONSTRUCT with constants, bindings, anchor bindings, two INTO / FROM graphs, ';' reification with constant and bound extra facts; 6 statements that must be rejected before execution) x every reachable store content to depth 4 (5) from 3 start stores, bulkSize 1 and 1000; after each step every graph's listing equals the model, non-target graphs unchanged, reified groups on fresh blank nodes.",
+         "Latitude: CREATE / DROP / INSERT / DELETE failing midway may leave partial effects on the graphs they name; row multiplicities are open when FROM graphs share a triple; patterns over graphs already holding blank-node groups and non-instantiable templates are skipped; _:b templates not generated (property silent).", "3/C04"),
  "C05": ("model_checking", "bounded-exhaustive enumeration of a value universe; print -> parse -> structural equality -> print; graph write/read over all small subsets",
          "Every node / predicate / literal / object / triple of a finite universe (ids of length <= 3-4 over a delimiter alphabet, anchors in 3 zones x 4 precisions, int64 and float64 boundary sets, texts, blobs) is printed, parsed back, compared structurally and printed again; every subset of size <= 4 (5) of a 14 (18) triple universe is written with WriteGraph and read into an empty graph.",
          "Domain taken from docs/temporal_graph_modeling.md; NaN excluded; longer ids and other zones not covered.", "3/C05"),
@@ -34,6 +37,12 @@ CHECKS = {
  "C12": ("model_checking", "bounded-exhaustive enumeration of (query, ORDER BY key list, LIMIT) with a permutation + adjacent-order + valid-top-n oracle",
          "12 base queries (columns of int64 with negatives, float64 with fractions and 1e21, anchors in 3 zones and 4 precisions, text, node, predicate, extracted ids, aliases, aggregate outputs, a join, row-dropping extractions) x every key list of length <= 2 with ASC/DESC plus repeated keys x every LIMIT 0..N+1 and no LIMIT; 8 invalid limits with and without ORDER BY.",
          "Comparator: numbers numerically, anchors chronologically, everything else by printed form; ties free; Go map-iteration order inside badwolf is not controlled in this native build.", "3/C12"),
+ "C13": ("model_checking", "bounded-exhaustive enumeration of HAVING expression trees in the shapes the grammar derives, evaluated truth-functionally over the rows of the same query without HAVING",
+         "10 result tables (int64 with negatives, float64 with fractions and 1e21, text with characters below the quote, anchors in other zones, nodes, predicates, extracted ids/types, two-binding joins, aggregate outputs) x all trees A | NOT E | (E) | (E) AND E | (E) OR E to depth 2 over all atoms and to depth 3 over 6 atoms per table (140k expressions; thorough: depth 3 over all atoms); atoms compare with constants of the same and of other kinds and with other bindings.",
+         "Latitude: a comparison between different kinds never holds or the query is rejected at execution; expressions the builder rejects at parse time are counted (documented forms must be accepted); < and > against node / predicate constants not generated.", "3/C13"),
+ "C14": ("model_checking", "metamorphic closure enumerated exhaustively over a query corpus (differential, no reference model) + stateless model checking of planner scenarios under the vsched engine (schedules, select choices and map-iteration order, deviation bound 2/3)",
+         "10.5k queries (all one-clause shapes with every modifier, two-clause shapes over a reduced vocabulary; thorough adds three-clause chains) x 4 graphs: all 24 injective renamings from a pool of 4 names, chanSize 0/1/3, GOMAXPROCS 1/2/4, repetition, all 3^n assignments of the triples to 3 FROM graphs, all clause permutations, all one-triple supersets (6 extra triples), total ORDER BY sequences; plus 10 planner scenarios (joins with 2-3 intermediate rows under 1/2/4 processors, total and repeated-key ORDER BY) where every schedule with <= 2 (3) deviations must return the specified rows.",
+         "Go map-iteration order is owned only in the vsched part (MapOrderChoice); ORDER BY over columns mixing kinds does not determine a total order and is not judged.", "3/C14"),
  "C15": ("model_checking", "exhaustive enumeration of all strings up to a length bound over delimiter alphabets plus all single mutations of printed forms into all parser entry points; all short line sequences into the graph reader",
          "All strings of <= 4 (5) letters over a 25-letter alphabet whose letters include the delimiter tokens, focused alphabets to length 5-8, every prefix / suffix / deletion / duplication / injection of 45 (200) printed forms, into node, predicate, literal (default and bounded), object and triple parsers; reader: all sequences of <= 3 (4) lines over 9-10 line kinds.",
          "Random strings are replaced by exhaustive short strings and mutations; termination observed as return.", "3/C15"),
